@@ -22,7 +22,7 @@ ASSUMPTIONS = [
 ]
 MONITORS = ("independent walk + lstat/readlink/inode of the workspace; audit-hook recorder proving zero filesystem mutations in "
             "workspace and cache during the second checkout; byte snapshot of the cache; link record checked through get_unused_links")
-REQUIRED_COUNTERS = ["workspace_path_spelled_non_canonically", "priors_with_interrupted_copy_leftover", "dir_removed_between_checkouts", "priors_with_foreign_hardlinks", "sequences", "second_checkouts_audited", "relinks_checked", "files_link_type_checked", "cache_snapshots_compared",
+REQUIRED_COUNTERS = ["priors_linked_into_another_store", "workspace_path_spelled_non_canonically", "priors_with_interrupted_copy_leftover", "dir_removed_between_checkouts", "priors_with_foreign_hardlinks", "sequences", "second_checkouts_audited", "relinks_checked", "files_link_type_checked", "cache_snapshots_compared",
                      "link_records_checked", "pair/copy->hardlink", "pair/hardlink->symlink", "pair/symlink->copy", "pair/copy->symlink",
                      "pair/hardlink->copy", "pair/symlink->hardlink", "store/local", "store/base", "single_file_cases"]
 
@@ -66,6 +66,11 @@ def run_shard(ctx):
                 oobj = tobj
             else:
                 T, _e = gen.tree(rng, depth=rng.randrange(0, 4), fanout=3, pool_=pool, dup=0.5, odd=0.25, min_files=1, empty_dirs=False)
+                if case % 300 == 11:
+                    # a checkout of around a thousand files (batch sizes a bookkeeping step may use)
+                    nbig = rng.choice([998, 999, 1000, 1001, 1100])
+                    T = {("many", f"f{i:04d}"): b"%d" % (i % 700) for i in range(nbig)}
+                    res.count("thousand_file_checkouts")
                 O, _e2, _ops = gen.mutate_tree(rng, T, (), pool, kind_swaps=False)
                 O = colab.force_kind_agreement(O, T) or dict(T)
                 tobj = colab.populate(odb, d, T, "tsrc")
@@ -81,7 +86,16 @@ def run_shard(ctx):
             from_other = (not single) and rng.random() < 0.5
             prior_files = dict(O if from_other else T)
             if rng.random() < 0.9:
-                checkout(ws, fs, load(odb_prior, (oobj if from_other else tobj).hash_info), odb_prior, force=True, state=state)
+                prior_store = odb_prior
+                if existing == "symlink" and not single and rng.random() < 0.35:
+                    # the prior workspace is linked into ANOTHER store holding the same objects (the previous cache directory)
+                    import shutil as _sh
+
+                    oldroot = os.path.join(d, "old-cache")
+                    _sh.copytree(croot, oldroot)
+                    prior_store = env.odb_of_class(cls, oldroot, state=state, type=[existing])
+                    res.count("priors_linked_into_another_store")
+                checkout(ws, fs, load(prior_store, (oobj if from_other else tobj).hash_info), prior_store, force=True, state=state)
                 if not single:
                     prior_files, ops = colab.user_edit(rng, ws, prior_files, pool, allow_kind_swaps=False, in_place_ok=(existing == "copy"))
                     prior_files = colab.force_kind_agreement(prior_files, T)
